@@ -12,7 +12,7 @@ import (
 	"golang.org/x/tools/go/ssa"
 )
 
-func (c *Ctx) decBuf() *types.Named { return c.namedType(c.lz, "DecoderBuffer") }
+func (c *Ctx) decBuf() *types.Named  { return c.namedType(c.lz, "DecoderBuffer") }
 func (c *Ctx) decoder() *types.Named { return c.namedType(c.lz, "Decoder") }
 
 // methodsOf returns the declared methods (source functions) with receiver T or *T.
@@ -663,10 +663,44 @@ func (c *Ctx) errExitBlocks(fi *FuncInfo) map[*ssa.BasicBlock]string {
 func errGlobalName(v ssa.Value) string {
 	if u, ok := v.(*ssa.UnOp); ok && u.Op == token.MUL {
 		if g, ok := u.X.(*ssa.Global); ok {
-			return g.Name()
+			return globalLabel(g)
 		}
 	}
 	return ""
+}
+
+// globalLabel names an error variable in constructs: exported variables by
+// their name; unexported ones by their message (errors.New("lz: MatchLen out
+// of range") → err[MatchLen-out-of-range]), so that renaming a private
+// variable does not change obligation keys.
+var globalLabels = map[*ssa.Global]string{}
+
+func globalLabel(g *ssa.Global) string {
+	if token.IsExported(g.Name()) {
+		return g.Name()
+	}
+	if l, ok := globalLabels[g]; ok {
+		return l
+	}
+	l := g.Name()
+	if init := g.Pkg.Func("init"); init != nil {
+		for _, b := range init.Blocks {
+			for _, in := range b.Instrs {
+				st, ok := in.(*ssa.Store)
+				if !ok || st.Addr != ssa.Value(g) {
+					continue
+				}
+				if call, ok := st.Val.(*ssa.Call); ok && len(call.Call.Args) == 1 {
+					if m, ok := constString(call.Call.Args[0]); ok {
+						m = strings.TrimPrefix(m, g.Pkg.Pkg.Name()+": ")
+						l = "err[" + strings.ReplaceAll(m, " ", "-") + "]"
+					}
+				}
+			}
+		}
+	}
+	globalLabels[g] = l
+	return l
 }
 
 func ruleValidateFirst(c *Ctx) {
@@ -755,11 +789,11 @@ func reachWithin(a, b *ssa.BasicBlock, l *Loop, fi *FuncInfo) bool {
 // doubling loops: loops whose header has phis (n, off) and whose body
 // appends Data[len(Data)-off:].
 type dblLoop struct {
-	Fn      *ssa.Function
-	Loop    *Loop
-	N, Off  *ssa.Phi
+	Fn       *ssa.Function
+	Loop     *Loop
+	N, Off   *ssa.Phi
 	N0, Off0 ssa.Value
-	Pre     *ssa.BasicBlock
+	Pre      *ssa.BasicBlock
 }
 
 func (c *Ctx) doublingLoops(fn *ssa.Function) []dblLoop {
